@@ -202,15 +202,21 @@ pub fn eval_text(case: &TextCase, st: &mut Stats) -> Result<(), String> {
     for (cap2, long) in [(32usize, false), (64usize, true)] {
         let fits = c1.len() <= 64 && c2.len() <= cap2;
         let got: Result<RawH, String> = if long {
-            must("LongFuzzyHash::from_bytes", || ssdeep::LongFuzzyHash::from_bytes(&text))?.map(|h| {
-                assert!(h.is_valid());
-                content(&h)
-            }).map_err(|e| format!("{:?}", e))
+            match must("LongFuzzyHash::from_bytes", || ssdeep::LongFuzzyHash::from_bytes(&text))? {
+                Ok(h) => {
+                    ensure!(must("is_valid", || h.is_valid())?, "parsing {:?} into LongFuzzyHash gives an object that fails is_valid(): {:?}", show, h);
+                    Ok(content(&h))
+                }
+                Err(e) => Err(format!("{:?}", e)),
+            }
         } else {
-            must("FuzzyHash::from_bytes", || ssdeep::FuzzyHash::from_bytes(&text))?.map(|h| {
-                assert!(h.is_valid());
-                content(&h)
-            }).map_err(|e| format!("{:?}", e))
+            match must("FuzzyHash::from_bytes", || ssdeep::FuzzyHash::from_bytes(&text))? {
+                Ok(h) => {
+                    ensure!(must("is_valid", || h.is_valid())?, "parsing {:?} into FuzzyHash gives an object that fails is_valid(): {:?}", show, h);
+                    Ok(content(&h))
+                }
+                Err(e) => Err(format!("{:?}", e)),
+            }
         };
         match (fits, got) {
             (true, Ok(g)) => ensure_eq!(g, exp, "parsing {:?} into the {} normalising type", show, if long { "long" } else { "short" }),
